@@ -19,6 +19,9 @@ theorem decTimerState_encTimerState (t : AcTimerState) (h : WFState t) (rest : B
     decTimerState (encTimerState t ++ rest) = .ok t := by
   simp only [encTimerState, List.cons_append, List.nil_append, decTimerState_enc t h]
 
+theorem wfStateBool_iff (t : AcTimerState) : wfStateBool t = true ↔ WFState t := by
+  simp only [wfStateBool, WFState, Bool.and_eq_true, decide_eq_true_eq]
+
 theorem encTimerState_length (t : AcTimerState) : (encTimerState t).length = 2 := rfl
 
 namespace QuickTimer
@@ -51,6 +54,9 @@ theorem decode_encode (ops : Ops T) (hinv : ∀ t, ops.ofNat? (ops.toNat t) = so
     Nat.mod_eq_of_lt (hlt ty), hinv ty]
   have e : d / 3600 % 24 % 256 * 3600 + d % 3600 / 60 % 256 * 60 = d := by omega
   rw [e]
+
+theorem wfBool_iff (m : QuickTimerMessage T) : wfBool m = true ↔ WF m := by
+  simp only [wfBool, WF, Bool.and_eq_true, decide_eq_true_eq, and_assoc]
 
 /-- why `WF` bounds the duration: 24 h (payload `.. .. 18 00`) is re-encoded as 0 h 0 min -/
 theorem roundtrip_fails_24h (ops : Ops T) (ac : Nat) (ty : T) :
